@@ -26,6 +26,10 @@
 (* the suboptimality Obj(loose) - Obj(fit), Obj(fit) being certified       *)
 (* optimal by the kkt clauses), nb (the loose point is not better than     *)
 (* the certified optimum).                                                 *)
+(* Elastic net without an l1 part (ridge(), l1_ratio 0, penalty 0): clause *)
+(* ridge -- the coefficients equal the closed-form solution of the ridge   *)
+(* normal equations (exact rationals) -- and a loose fit like the others   *)
+(* (gap >= 0, stop, ub, nb), on the collinear-but-regularised designs too. *)
 (* OLS with intercept: clause coef (the slopes equal the exact rational     *)
 (* least-squares slopes of the integer problem within the accuracy of a    *)
 (* backward-stable solver); cases may carry per-column offsets "off" (the  *)
@@ -193,6 +197,9 @@ FitFirstFalse(ev) ==
        ELSE IF ~GapOk(ev) THEN "gap"
        ELSE IF ~StopOk(ev, In.te) THEN "stop"
        ELSE IF ~PerturbOk(ev, rm, cm) THEN "perturb"
+       \* no l1 part (pure ridge / penalty 0), single task: the coefficients are the closed-form ridge solution
+       ELSE IF Kind = "enet" /\ PTh(Pen, N) = 0 /\ (Pen.ln > 0 \/ FullRank(X, In.icpt))
+               /\ RidgeInRange(Pen, X, Y, 1, In.icpt) /\ ~RidgeOk(Pen, X, Y, ev.w, 1, In.icpt) THEN "ridge"
        \* un-shifted OLS: the exact slopes are compared where the integer arithmetic of the exact solution fits 31 bits
        ELSE IF OlsIcpt /\ SolveInRange(X, Y, Off, ev.w, ev.yhat, rm, 1, F32) /\ Resolvable(X, Y, Off, ev.w, ev.yhat, rm, 1, F32)
                     /\ ~CoefOk(X, Y, Off, ev.w, ev.yhat, rm, 1, F32) THEN "coef"
@@ -265,7 +272,8 @@ EquivOk(ev, ev0) ==
   /\ \A jj \in 1..P : \A tt \in 1..T : Abs(ev.w[jj][tt] - ev0.w[jj][tt]) <= EqSl
   /\ \A tt \in 1..T : Abs(ev.b[tt] - ev0.b[tt]) <= EqSl
   /\ \A i \in 1..N : \A tt \in 1..T : Abs(ev.yhat[i][tt] - ev0.yhat[i][tt]) <= EqSl
-  /\ Abs(ev.gap - ev0.gap) <= EqSl
+  \* the reported gap is not compared: without an l1 part it is either the objective or 0 depending on whether x'r is
+  \* exactly 0.0 or 1e-17 (the solver's absolute epsilons are not unit-free); both are valid upper bounds
 
 Loose0FirstFalse(ev) ==
   IF ~(e = 3 /\ Case.ev[2].ev = "loose" /\ In.ue /= 0) THEN "order"
